@@ -328,3 +328,141 @@ Example C05_merge_evicted_reorders :
   rc_check [1; 2; 3]%Z (concat (rc_seen (rc_run true 2 ops))) = RCOrder 1 2 /\
   concat (rc_seen (rc_run false 2 ops)) = [2; 3]%Z.
 Proof. vm_compute. repeat split; reflexivity. Qed.
+
+(* ================= column names (Spec/ColumnsSpec.v, Proofs/ColumnsProofs.v) =================
+   "the result contains exactly the selected columns, or all fields for *": names are byte strings and are
+   compared exactly; a field called __seq__, __x, x__, _ or __ is a field like any other. *)
+From SV Require Import Spec.ColumnsSpec Proofs.ColumnsProofs.
+
+Theorem C05_columns_exact : forall q row r,
+  direct q row = DRow r -> forall k, In k (map fst r) <-> In k (sel_columns q row).
+Proof. exact direct_columns_star. Qed.
+Print Assumptions C05_columns_exact.
+
+Theorem C05_star_keeps_every_column : forall row w r,
+  direct {| q_items := [IStar]; q_where := w |} row = DRow r ->
+  forall k, In k (map fst r) <-> In k (map fst row).
+Proof. exact direct_star_columns. Qed.
+Print Assumptions C05_star_keeps_every_column.
+
+(* the extracted checker the driver runs on the implementation's result decides exactly that ... *)
+Theorem C05_chk_columns_iff : forall want obs,
+  chk_columns want obs = None <-> (forall k, In k want <-> In k obs).
+Proof. exact chk_columns_none_iff. Qed.
+Print Assumptions C05_chk_columns_iff.
+
+Theorem C05_chk_columns_missing : forall want obs k,
+  chk_columns want obs = Some (ColMissing k) -> In k want /\ ~ In k obs.
+Proof. exact chk_columns_missing. Qed.
+Print Assumptions C05_chk_columns_missing.
+
+Theorem C05_chk_columns_extra : forall want obs k,
+  chk_columns want obs = Some (ColExtra k) -> In k obs /\ ~ In k want /\ (forall j, In j want -> In j obs).
+Proof. exact chk_columns_extra. Qed.
+Print Assumptions C05_chk_columns_extra.
+
+(* ... and every result of the model passes it *)
+Theorem C05_model_passes_chk_columns : forall q row r,
+  direct q row = DRow r -> chk_columns (sel_columns q row) (map fst r) = None.
+Proof. exact direct_passes_chk_columns. Qed.
+Print Assumptions C05_model_passes_chk_columns.
+
+(* non-vacuity: SELECT * FROM stream WHERE v > 0 on {v:5, __seq__:42, __x:1, x__:2, _:3}: all five fields;
+   a result without __seq__ is flagged *)
+Example C05_dunder_columns :
+  let v := [118]%N in let seq := [95;95;115;101;113;95;95]%N in let ux := [95;95;120]%N in
+  let xu := [120;95;95]%N in let u := [95]%N in
+  let q := {| q_items := [IStar]; q_where := Some (ECmp CGt (ECol v) (ENum 0)) |} in
+  let row := [(v, VNum 5); (seq, VNum 42); (ux, VNum 1); (xu, VNum 2); (u, VNum 3)] in
+  direct q row = DRow row /\
+  chk_columns (sel_columns q row) [v; ux; xu; u] = Some (ColMissing seq) /\
+  chk_columns (sel_columns {| q_items := [ICol seq u]; q_where := None |} row) [u; seq] = Some (ColExtra seq).
+Proof. vm_compute. repeat split; reflexivity. Qed.
+
+(* ================= select items with quoted parts (Model/SelectItems.v, Proofs/SelectItemsProofs.v) =================
+   An item  <text> AS <alias>  reaches the stream as the spec  text ":" alias  and is split again at the first ':'
+   outside quotes, a quoted section being closed by the character that opened it. *)
+From SV Require Import Model.SelectItems Proofs.SelectItemsProofs.
+
+(* the split is exact for every text whose quoted sections are closed, whatever they contain *)
+Theorem C05_spec_split_alias : forall t a, fs_closed t = true -> fs_split (t ++ 58%N :: a) = (t, Some a).
+Proof. exact fs_split_alias. Qed.
+Print Assumptions C05_spec_split_alias.
+
+Theorem C05_spec_split_plain : forall t, fs_closed t = true -> fs_split t = (t, None).
+Proof. exact fs_split_plain. Qed.
+Print Assumptions C05_spec_split_plain.
+
+(* the texts the statement speaks of are closed: a string literal or quoted key in either quote style that
+   holds anything but its own quote character (the OTHER quote characters and ':' included) ... *)
+Theorem C05_quoted_section_closed : forall q c,
+  fs_is_quote q = true -> ~ In q c -> fs_closed (q :: c ++ [q]) = true.
+Proof. exact fs_closed_quoted. Qed.
+Print Assumptions C05_quoted_section_closed.
+
+(* ... and the canonical spelling of a nested path with plain names, indices and such quoted keys *)
+Theorem C05_path_text_closed : forall ss, Forall seg_ok ss -> fs_closed (np_render ss) = true.
+Proof. exact fs_closed_render. Qed.
+Print Assumptions C05_path_text_closed.
+
+(* compileSimpleFieldInfo recovers the item: output name = the name the statement gives the column *)
+Theorem C05_item_names : forall i, si_wf i ->
+  fi_out (fs_compile (si_spec i)) = si_name i /\
+  fi_field (fs_compile (si_spec i)) = match si_alias i, i with None, SLit _ c _ => c | _, _ => si_text i end.
+Proof. exact fs_compile_names. Qed.
+Print Assumptions C05_item_names.
+
+(* a query over such items yields exactly the columns its items name *)
+Theorem C05_item_columns : forall q row r,
+  Forall si_wf (sq_items q) -> sdirect q row = SDRow r ->
+  forall k, nc_lookup r k <> None <-> In k (sq_columns q).
+Proof. exact sdirect_columns. Qed.
+Print Assumptions C05_item_columns.
+
+(* a literal's column holds the literal's content (pairwise distinct names) *)
+Theorem C05_literal_value : forall q row r qt c a,
+  sdirect q row = SDRow r -> NoDup (sq_columns q) -> In (SLit qt c a) (sq_items q) ->
+  nc_lookup r (si_name (SLit qt c a)) = Some (CVal (JS (VStr c))).
+Proof. exact sdirect_literal_value. Qed.
+Print Assumptions C05_literal_value.
+
+Theorem C05_items_filtered_iff : forall q row,
+  sdirect q row = SDNone <-> nwhere_ok {| nq_items := []; nq_where := sq_where q |} row = Some false.
+Proof. exact sdirect_none_iff. Qed.
+Print Assumptions C05_items_filtered_iff.
+
+Theorem C05_items_history_free : forall q h row,
+  nth (length h) (map (sdirect q) (h ++ [row])) SDNone = sdirect q row.
+Proof. exact sdirect_history_free. Qed.
+Print Assumptions C05_items_history_free.
+
+(* non-vacuity: SELECT m["it's"] AS v, "it's: ok" AS note, id FROM stream on {id:1, m:{"it's":7}}: {v:7, note:"it's: ok", id:1};
+   the items are well-formed; the spec of the first item splits at its last ':' only.
+   "Closed by the character that opened it" is needed: a scanner in which ANY quote character toggles the
+   quoted state (fs_split_toggle) finds no separator in  m["it's"]:v  (the column would be named by the whole
+   spec) and cuts  "it's: ok":note  inside the literal *)
+Example C05_quoted_items_example :
+  let m := [109]%N in let its := [105;116;39;115]%N in let id := [105;100]%N in
+  let p := [109;91;34;105;116;39;115;34;93]%N in                 (* m["it's"] *)
+  let lit := [105;116;39;115;58;32;111;107]%N in                 (* it's: ok *)
+  let v := [118]%N in let note := [110;111;116;101]%N in
+  let q := {| sq_items := [SPath p (Some v); SLit 34 lit (Some note); SPath id None]; sq_where := None |} in
+  let row := [(id, JS (VNum 1)); (m, JMap [(its, JS (VNum 7))])] in
+  sdirect q row = SDRow [(note, CVal (JS (VStr lit))); (v, CVal (JS (VNum 7))); (id, CVal (JS (VNum 1)))] /\
+  Forall si_wf (sq_items q) /\
+  fs_split (p ++ 58 :: v)%N = (p, Some v) /\
+  fs_split_toggle false (p ++ 58 :: v)%N = ((p ++ 58 :: v)%N, None) /\
+  fs_split_toggle false (34 :: lit ++ 34 :: 58 :: note)%N = ([34;105;116;39;115]%N, Some ([32;111;107;34;58] ++ note)%N).
+Proof.
+  vm_compute. repeat split; try reflexivity. repeat constructor; try reflexivity; try (left; reflexivity); try (right; reflexivity);
+    intros H; repeat (destruct H as [H|H]; [discriminate|]); exact H.
+Qed.
+
+(* refuted for a string literal WITHOUT alias that contains ':' (the spec is the bare content, so its first ':'
+   is taken for the separator): SELECT 's:a' FROM stream on {s:"txt"} has the column s:a AND a column a = "txt" *)
+Example C05_unaliased_colon_literal_extra_column :
+  let s := [115]%N in let a := [97]%N in let sa := [115;58;97]%N in let txt := [116;120;116]%N in
+  let q := {| sq_items := [SLit 39 sa None]; sq_where := None |} in
+  sdirect q [(s, JS (VStr txt))] = SDRow [(sa, CVal (JS (VStr sa))); (a, CVal (JS (VStr txt)))] /\
+  chk_columns (sq_columns q) [sa; a] = Some (ColExtra a).
+Proof. vm_compute. split; reflexivity. Qed.
